@@ -1066,10 +1066,28 @@ def gen_c06(rng):
     awaited = {'set': [ACK, NAK], 'mga': [MGA], 'poll': [(cls_, id_)] + ([ACK, NAK] if cls_ == 6 else [])}[kind]
     tx, timelines = [], []
     cfgpoll = kind == 'poll' and cls_ == 6
+    refused_any = False
     for a in range(K - 1):
-        fk = rng.choice(['silence', 'garbage', 'corrupt', 'truncated', 'txfail', 'unrelated'] + (['halfway', 'halfway'] if cfgpoll else []))
+        fk = rng.choice(['silence', 'garbage', 'corrupt', 'truncated', 'txfail', 'unrelated'] + (['halfway', 'halfway'] if cfgpoll else [])
+                        + (['refused', 'refused'] if kind in ('set', 'mga') and chunk >= 128 else []))
         tx.append(fk != 'txfail')
         tl = []
+        refused_any = refused_any or fk == 'refused'
+        if fk == 'refused':
+            # an attempt that ends at once with a frame of the awaited kind that does not settle the request (an ACK-ACK for another
+            # message, an MGA-ACK that rejects) - no time-out, so no recovery - and, in the same read, something behind it: a frame cut
+            # short, or a second frame of the awaited kind; the next attempt must start from an empty queue and a parser that hunts
+            if kind == 'set':
+                oc = rng.choice([c for c in [(6, 1), (6, 0x17), (6, 0x3e), (6, 0x8a), (1, 7)] if c != (cls_, id_)])
+                first = frame(5, 1, list(oc))
+                second = rng.choice([frame(5, 0, [cls_, id_]), frame(5, 1, list(oc)), frame(5, 0, list(oc))])
+            else:
+                first = frame(0x13, 0x60, [0, 0, rng.choice([1, 2, 6]), id_, 0, 0, 0, 0])
+                second = rng.choice([frame(0x13, 0x60, [0, 0, 4, id_, 9, 9, 9, 9]), frame(0x13, 0x60, [1, 0, 0, id_ ^ 1, 0, 0, 0, 0])])
+            u = rng.random()
+            behind = b'' if u < 0.15 else second if u < 0.5 else second[:rng.randrange(1, len(second))] if u < 0.85 else \
+                frame(1, 7, bytes(40))[:rng.randrange(3, 30)]
+            tl = [(rng.randrange(1, max(2, dticks // 2)), (first + behind).hex())]
         if fk == 'halfway':
             # a configuration poll that gets its response but not the acknowledgement (lost, corrupted, or a NAK in its place)
             t1 = rng.randrange(1, max(2, dticks // 2))
@@ -1157,7 +1175,7 @@ def gen_c06(rng):
     need = -(-len(body) // chunk) + 3
     if need + 2 >= dticks:
         return None
-    backoff = K >= 2 and all(tx) and rng.random() < 0.2 and delay * 2 ** (K - 1) <= 5000
+    backoff = K >= 2 and all(tx) and not refused_any and rng.random() < 0.2 and delay * 2 ** (K - 1) <= 5000
     if backoff:
         # every failed attempt was followed by a recovery that doubled the delay: the K-th attempt waits delay * 2**(K-1), and the
         # answer comes later than the delay the request started with
@@ -1312,6 +1330,7 @@ def run_level(line, debug):
     p = line.split('|')
     kind, name, h, edits, retries, delay, txs, rxs = p[1:9]
     again = int(p[9]) if len(p) > 9 and p[9] else 0          # the same frame object sent this many times more
+    hist = p[10] if len(p) > 10 else ''                      # what happened to the server / the shared registry before the request
     txl = [t == '1' for t in txs.split(',')] if txs else []
     rx = [(int(e.split(':')[0]), bytes.fromhex(e.split(':')[1])) for e in rxs.split(',')] if rxs else []
     log_level(debug, LEVEL_SPLIT[0] if debug else None)
@@ -1319,7 +1338,18 @@ def run_level(line, debug):
         FrameFactory.destroy()
         CLK.ticks = T0
         s = ScriptSrv(txl, rx, 2000000)
-        s.setup()
+        if hist != 'nosetup':
+            s.setup()
+        if hist == 'peer':
+            # another server object of the application was set up and cleaned up in the meantime: the registry both share is gone
+            b = ScriptSrv([], [], 2000000)
+            b.setup()
+            b.cleanup()
+        if hist == 'cleanup':
+            try:
+                s.cleanup()
+            except Exception as e:
+                return 'cleanup-EXC:' + exc_name(e), None
         s.set_retries(int(retries))
         s.set_retry_delay(int(delay))
         try:
@@ -1368,7 +1398,7 @@ def model_line_level(line):
         return line[len('level'):]
     p = line.split('|')
     kind, name, h, edits, retries, delay, txs, rxs = p[1:9]
-    if (len(p) > 9 and p[9]) or name == 'ITEMS':
+    if (len(p) > 9 and p[9]) or name == 'ITEMS' or len(p) > 10:
         return 'no-model'             # one frame object used for several requests: judged by the oracle alone
     out, st = run_level(line, False)
     if st is None:
@@ -1437,8 +1467,13 @@ def gen_level(rng, n, profile):
                                frame(0x13, 0x60, [0, 0, 0, i, 0, 0, 0, 0]), b'', noise(rng)])
             rx.append((rng.choice([1, 5, 50, 100]), data))
         again = rng.choice(['', '', '', '1', '2'])
+        # a request on a server that was never set up, that was cleaned up, or whose registry another server object took down with it:
+        # what the request does then (frames that cannot be built are skipped, or an exception) must not depend on the log level either
+        hist = rng.choice(['peer', 'peer', 'nosetup', 'cleanup']) if rng.random() < 0.12 else ''
+        if hist and kind != 'faf' and rng.random() < 0.7:
+            rx.insert(0, (1, frame(0x13, 0x60, [1, 0, 0, i, 0, 0, 0, 0]) if kind == 'mga' else frame(5, 1, [c, i])))
         yield '|'.join(['level', kind, name, h, edits, str(retries), str(delay), ','.join('1' if rng.random() < .9 else '0' for _ in range(retries + 1)),
-                        ','.join(f'{dt}:{d.hex()}' for dt, d in rx)] + ([again] if again else []))
+                        ','.join(f'{dt}:{d.hex()}' for dt, d in rx)] + ([again, hist] if hist else [again] if again else []))
     # VALSET frames from items made by hand (their sign flag need not be the key table's), the frame sent once or several times
     from comp_codec import published_keys
     keys = published_keys()
